@@ -746,7 +746,7 @@ def witness_cases(ck, facts):
         ck.violation("C08/model/witness-interpretation", "the witnesses written in QSem differ from the interpreted Python-level gates: %r" % (lines,),
                      {"kind": "witness"}, found_input=False)
     if abs(e - 2.0) > TOL:
-        ck.violation(SIG_WIDTH, "witness of C08_deflation_width_mismatch_refuted: H = Z0, ansatz RY(pi/2) on 1 qubit, the same circuit declared on 2 "
+        ck.violation(SIG_WIDTH, "witness of C08_deflation_width_mismatch_asis_refuted: H = Z0, ansatz RY(pi/2) on 1 qubit, the same circuit declared on 2 "
                      "qubits as deflation circuit with coefficient 2: energy_estimation = %.10f, <psi|H|psi> + 2*|<psi_d|psi>|^2 = 2" % e,
                      {"kind": "witness-width"}, found_input=True)
     elif facts["defl_key_is_ansatz_width"]:
@@ -760,7 +760,7 @@ def witness_cases(ck, facts):
     if abs(e + 1) > TOL:
         ck.violation("C08/energy_estimation/witness-ref/value-differs", "E = %r, expected -1" % e, {"kind": "witness-ref"}, True)
     if abs(eo - e) > TOL:
-        ck.violation(SIG_REF, "witness of C08_operator_expectation_ignores_reference_refuted: ref_state = X on qubit 0, H = Z0: energy_estimation = "
+        ck.violation(SIG_REF, "witness of C08_operator_expectation_asis_ignores_reference: ref_state = X on qubit 0, H = Z0: energy_estimation = "
                      "%.6f, operator_expectation(H) = %.6f" % (e, eo), {"kind": "witness-ref"}, found_input=True)
 
 
